@@ -16,7 +16,7 @@ def unit(job, variant, pi, seed, length, fork_every):
     rng = random.Random(f"C10:{seed}:{job}:{variant}:{pi}")
     cmds = random_plan(rng, job, variant, length) if pi % 2 == 0 else simlib.rotation_plan(rng, job, variant, max(3, length // 8))
     eng = simlib.make_engine(job, variant)
-    out = {"states": 0, "forks": 0, "valid_listed": 0, "failing": [], "foreign_rejects": 0, "skills": set(),
+    out = {"states": 0, "forks": 0, "valid_listed": 0, "failing": [], "foreign_rejects": 0, "skills": set(), "strategy_reqs": [],
            "sample": None, "keydown_running_states": 0}
     done = []
 
@@ -54,6 +54,31 @@ def unit(job, variant, pi, seed, length, fork_every):
             out["buff_sums"] = out.get("buff_sums", 0) + 1
         if any(k.running for k in views["keydown"]):
             out["keydown_running_states"] += 1
+        if i % 3 == 1 and len(out["strategy_reqs"]) < 12:
+            # the shipped default policy on this state: it must cast a skill that is listed valid (or raise ValueError
+            # exactly when nothing is), and the Lean model of cast_by_priority must pick the same skill
+            from simaple.simulate.strategy.default import cast_by_priority
+            order = [v.name for v in views["validity"]]
+            rng.shuffle(order)
+            order = order[: rng.randint(0, len(order))]
+            viewer = eng.get_current_viewer()
+            try:
+                cmd = next(cast_by_priority(order)((viewer, [])))
+                chosen = cmd[len('CAST "'):-1]
+            except ValueError:
+                chosen = None
+            valid_now = {v.name for v in views["validity"] if v.valid}
+            if chosen is not None and chosen not in valid_now:
+                fail("policy-casts-a-skill-not-listed-valid", skill=chosen, order=order)
+            if chosen is None and valid_now:
+                fail("policy-fails-although-skills-are-valid", order=order)
+            try:
+                out["strategy_reqs"].append(({"fn": "cast_by_priority", "order": order,
+                                              "validity": [{"name": v.name, "valid": bool(v.valid)} for v in views["validity"]],
+                                              "running": [[r.name, complib.units(r.time_left)] for r in views["running"]]},
+                                             chosen))
+            except complib.OffGrid:
+                pass
         if i % fork_every != 0:
             continue
         playlogs = [pl for log in eng.operation_logs() for pl in log.playlogs]
@@ -136,6 +161,9 @@ def main(ck: Check):
             samples.append(out["sample"])
         reqs.extend(out["reqs"])
         expect.extend(out["expect"])
+        for rq, ex in out["strategy_reqs"]:
+            reqs.append(rq)
+            expect.append(ex)
         complib.merge_stats(mstats, out["mstats"])
     with ck.locked():
         ck.regenerate(["core"])          # Props/C10_Views.lean is stated over the generated Stat.sum
